@@ -94,12 +94,21 @@ def sanitizedOutputPath (fname : Str) (path : PPath) : Option PPath :=
   let outfile := canonicalPath (path.join (parse (removeRelMarker fname)))
   if isRelativeTo outfile path then some outfile else none
 
-/-- `get_sanitized_output_path(fname, None)`: checked against the working directory, but the
-    *uncanonicalised* relative name is returned -/
-def sanitizedOutputPathCwd (fname : Str) (cwd : PPath) : Option PPath :=
+/-- `get_sanitized_output_path(fname, None)` as pinned: checked against the working directory,
+    but the *uncanonicalised* name, read a second time after removing the marker, is returned -/
+def sanitizedOutputPathCwdPinned (fname : Str) (cwd : PPath) : Option PPath :=
   let fname := if fname.head? = some '/' then dropWhileSlash fname else fname
   let target := canonicalPath (cwd.join (parse fname))
   if isRelativeTo target cwd then some (parse (removeRelMarker fname)) else none
+
+/-- `get_sanitized_output_path(fname, None)` after the repair: the checked path, relative to the
+    working directory (`target_path.relative_to(canonical_path(cwd))`) -/
+def sanitizedOutputPathCwd (fname : Str) (cwd : PPath) : Option PPath :=
+  let fname := if fname.head? = some '/' then dropWhileSlash fname else fname
+  let target := canonicalPath (cwd.join (parse fname))
+  if isRelativeTo target cwd then
+    some { root := [], comps := target.comps.drop (canonicalPath cwd).comps.length }
+  else none
 
 /-- the literal probe directory of the pinned tree's `check_archive_path` -/
 def probeDir : PPath :=
